@@ -71,9 +71,9 @@ Definition caller_ok (pending : option (Z * Z)) (x : caller) : Prop :=
 
 Definition pipeline_ok (s : hstate) : Prop :=
   match h_pending s with
-  | None => h_sem s = false /\ h_resp s = None /\ h_to s = [] /\ h_from s = []
+  | None => h_sem s = 1 /\ h_resp s = None /\ h_to s = [] /\ h_from s = []
   | Some (c, op) =>
-      h_sem s = true /\
+      h_sem s = 0 /\
       (exists x, In x (h_callers s) /\ c_id x = c /\ c_op x = op /\ c_phase x = WaitResp) /\
       ((h_resp s = None /\ h_to s = [op] /\ h_from s = [])
        \/ (h_resp s = None /\ h_to s = [] /\ exists cc n, h_from s = [(cc, op, n)] /\ 1 <= n)
@@ -115,12 +115,12 @@ Proof.
       destruct Ipipe as [Hs [[x [Hx Hx']] Hc]]. split; [exact Hs|]. split; [|exact Hc].
       exists x. split; [apply in_or_app; auto | exact Hx'].
   - (* Acquire *)
-    cbn [step_opt] in E. destruct (h_sem s) eqn:Sem; [discriminate|].
+    cbn [step_opt] in E. destruct (Z.leb (h_sem s) 0) eqn:Sem; [discriminate|].
     destruct (find_waiting c (h_callers s)) as [x|] eqn:F; [|discriminate].
     destruct (find_waiting_spec _ _ _ F) as [Hx [Hid Hph]].
     unfold pipeline_ok in Ipipe. destruct (h_pending s) as [[c' op']|] eqn:P.
-    { destruct Ipipe as [Hs _]. congruence. }
-    destruct Ipipe as [_ [Hr [Ht Hf]]]. rewrite Hr in E. inversion E; subst s' o; clear E.
+    { destruct Ipipe as [Hs _]. rewrite Hs in Sem. discriminate. }
+    destruct Ipipe as [Hsem [Hr [Ht Hf]]]. rewrite Hr in E. inversion E; subst s' o; clear E.
     pose proof (Icall x Hx) as [Hop _].
     constructor; cbn.
     + exact Ierr.
@@ -132,7 +132,7 @@ Proof.
         split; cbn; [exact Hop | congruence].
       * pose proof (Icall y Hy) as [Hop' Hph']. split; [exact Hop'|].
         destruct (c_phase y); auto. discriminate.
-    + unfold pipeline_ok. cbn. split; [reflexivity|]. split.
+    + unfold pipeline_ok. cbn. split; [rewrite Hsem; reflexivity|]. split.
       * exists (mkCaller (c_id x) (c_op x) WaitResp). split; [|cbn; auto].
         apply set_phase_in; [exact Hx|]. unfold has_id. now apply Z.eqb_eq.
       * left. rewrite Ht, Hf. auto.
@@ -169,8 +169,9 @@ Proof.
     destruct Hc as [[Hr _]|[[Hr _]|[n' [Hr [Hn [Ht Hf]]]]]]; try congruence.
     inversion Hr; subst op' n'. clear Hr.
     assert (release_if (mkH (set_phase c (Done op) (h_callers s)) (h_sem s) None None (h_to s) (h_from s) (h_err s)) n
-            = mkH (set_phase c (Done op) (h_callers s)) false None None (h_to s) (h_from s) (h_err s)) as Rel.
-    { unfold release_if. cbn. rewrite Hs. destruct (Z.eqb n 0) eqn:Zn; [apply Z.eqb_eq in Zn; lia|]. reflexivity. }
+            = mkH (set_phase c (Done op) (h_callers s)) 1 None None (h_to s) (h_from s) (h_err s)) as Rel.
+    { unfold release_if, locked. cbn [h_sem h_callers]. rewrite Hs.
+      destruct (Z.eqb n 0) eqn:Zn; [apply Z.eqb_eq in Zn; lia|]. reflexivity. }
     rewrite Rel in E. inversion E; subst s' o; clear E.
     constructor; cbn; auto.
     + rewrite map_id_set_phase. exact Ind.
@@ -201,7 +202,7 @@ Proof.
               inversion Hph'. unfold has_id in Hid. apply Z.eqb_neq in Hid. congruence.
         -- destruct Ipipe as [Hs [_ Hcase]].
            destruct Hcase as [[Hr _]|[[Hr _]|[n' [Hr [Hn [Ht Hf]]]]]]; try congruence.
-           unfold pipeline_ok. cbn. auto.
+           unfold pipeline_ok. cbn. rewrite Hs. auto.
       * (* a queued caller *)
         destruct (find_waiting c (h_callers s)) as [x|] eqn:F; [|discriminate].
         inversion E; subst s' o; clear E.
@@ -249,7 +250,7 @@ Proof.
 Qed.
 
 (* a command is in flight only while its caller holds the semaphore and waits for it *)
-Lemma inv_outstanding_pending s : Inv s -> outstanding s = 1 -> exists c op, h_pending s = Some (c, op) /\ h_sem s = true.
+Lemma inv_outstanding_pending s : Inv s -> outstanding s = 1 -> exists c op, h_pending s = Some (c, op) /\ h_sem s = 0.
 Proof.
   intros [_ _ _ P] O. unfold pipeline_ok in P. unfold outstanding in O.
   destruct (h_pending s) as [[c op]|].
@@ -357,7 +358,7 @@ Proof.
   intros Hi E. unfold measure.
   destruct l as [c op|c|cc n| |cc op n| |c|c]; try discriminate; cbn [step_opt] in E.
   - (* Acquire *)
-    destruct (h_sem s); [discriminate|].
+    destruct (Z.leb (h_sem s) 0); [discriminate|].
     destruct (find_waiting c (h_callers s)) as [x|] eqn:F; [|discriminate].
     destruct (h_pending s), (h_resp s); inversion E; subst; clear E; unfold measure; cbn;
       fold (weight_sum (h_callers s));
@@ -372,18 +373,18 @@ Proof.
     destruct (h_from s) as [|[[cc op] n] rest]; [discriminate|].
     destruct (cc && (op =? 0)).
     + inversion E; subst; clear E. unfold release_if; cbn.
-      destruct (negb (n =? 0) && h_sem s); unfold measure; cbn; lia.
+      destruct (negb (n =? 0) && locked _); unfold measure; cbn; lia.
     + cbn in E. destruct (h_pending s).
       * destruct (h_resp s); inversion E; subst; clear E; unfold measure; cbn; lia.
       * inversion E; subst; clear E. unfold release_if; cbn.
-        destruct (negb (n =? 0) && h_sem s); unfold measure; cbn; lia.
+        destruct (negb (n =? 0) && locked _); unfold measure; cbn; lia.
   - (* Resume *)
     destruct (h_pending s) as [[c' op']|]; [|discriminate].
     destruct (h_resp s) as [[op n]|]; [|discriminate].
     destruct (c' =? c); [|discriminate]. inversion E; subst; clear E.
     unfold release_if; cbn.
     pose proof (weight_set_phase_le c (Done op) (h_callers s) eq_refl) as Hle.
-    destruct (negb (n =? 0) && h_sem s); unfold measure; cbn;
+    destruct (negb (n =? 0) && locked _); unfold measure; cbn;
       fold (weight_sum (h_callers s)); fold (weight_sum (set_phase c (Done op) (h_callers s))); lia.
 Qed.
 
@@ -516,16 +517,16 @@ Proof. vm_compute. auto. Qed.
    controller sends the opcode-0 flow-control event *)
 Lemma zero_credit_refuted :
   let s := run h_init [Call 1 3075; Call 2 4099; Acquire 1; CtrlReply true 0; Deliver; Resume 1] in
-  quiescent s = true /\ all_answered s = false /\ h_sem s = true /\
+  quiescent s = true /\ all_answered s = false /\ h_sem s = 0 /\
   all_answered (run s [CtrlEvent true 0 1; Deliver; Acquire 2; CtrlReply true 1; Deliver; Resume 2]) = true.
 Proof. vm_compute. auto. Qed.
 
-(* a flow-control event while a command is outstanding frees the semaphore: the next caller
-   trips `assert self.pending_command is None` and the semaphore is never released again *)
+(* a flow-control event while a command is outstanding adds a permit: the next caller trips
+   `assert self.pending_command is None` (and keeps its permit for ever) *)
 Lemma early_flow_control_refuted :
   let s := run h_init [Call 1 3075; Call 2 4099; Acquire 1; CtrlEvent true 0 1; Deliver; Acquire 2;
                        CtrlReply true 1; Deliver; Resume 1] in
-  map phase_code (h_callers s) = [(1, 2, 3075); (2, 3, 0)] /\ h_sem s = false.
+  map phase_code (h_callers s) = [(1, 2, 3075); (2, 3, 0)] /\ h_sem s = 1.
 Proof. vm_compute. auto. Qed.
 
 (* a second event for the same command hits a completed future *)
@@ -542,7 +543,7 @@ Proof. vm_compute. auto. Qed.
 (* a command with opcode 0 answered by Command Complete is taken for a flow-control event *)
 Lemma opcode_zero_refuted :
   let s := run h_init [Call 1 0; Acquire 1; CtrlReply true 1; Deliver] in
-  quiescent s = true /\ all_answered s = false /\ map phase_code (h_callers s) = [(1, 1, 0)] /\ h_sem s = false.
+  quiescent s = true /\ all_answered s = false /\ map phase_code (h_callers s) = [(1, 1, 0)] /\ h_sem s = 1.
 Proof. vm_compute. auto. Qed.
 
 (* D03m: cancelling the owner of an unanswered command frees the semaphore while the command is
